@@ -6,7 +6,7 @@ and side) is executed and must raise the documented error and leave the full sna
 """
 from mc.engine import hbfs
 from mc.engine.report import Violation
-from mc.engine.seams import Canon, public_snapshot
+from mc.engine.seams import Canon, public_snapshot, new_model
 
 import ECAgent.Core as Core
 import ECAgent.Environments as Envs
@@ -25,7 +25,9 @@ class XS(X):
 
 
 # (pool key, agent id, component types fixed before joining)
-AGENTS = [('a1', 'a1', ('X',)), ('a1b', 'a1', ('X', 'Y')), ('a2', 'a2', ()), ('a3', 'a3', ('XS', 'Y', 'X'))]
+AGENTS = [('a1', 'a1', ('X',)), ('a1b', 'a1', ('X', 'Y')), ('a2', 'a2', ()), ('a3', 'a3', ('XS', 'Y', 'X')),
+          ('a4f', 'a4', ('X',))]      # a4f: agent and component were built for ANOTHER model (see FOREIGN)
+FOREIGN = {'a4f'}
 TYPES = {'X': X, 'Y': Y, 'XS': XS}
 
 # kind -> (constructor args, continuous?, in-range position)
@@ -66,20 +68,22 @@ class World:
 
 
 class Harness:
-    def __init__(self, kind, aliases=False):
+    def __init__(self, kind, aliases=False, foreign=False):
         self.kind = kind
         self.aliases = aliases      # addAgent / removeAgent / getAgents (deprecated spellings) as entry points
-        self.config = {'world': kind, 'aliases': aliases}
+        self.foreign = foreign      # the pool includes a4f, an agent built for another model
+        self.config = {'world': kind, 'aliases': aliases, 'foreign': foreign}
+        self.agents = [a for a in AGENTS if foreign or a[0] not in FOREIGN]
         self.spec = WORLDS[kind]
         self.cn = Canon(drop={('DiscreteWorld', 'cells'), ('LineWorld', 'cells'), ('GridWorld', 'cells')})
-        self.keys = [a[0] for a in AGENTS]
-        self.idof = {a[0]: a[1] for a in AGENTS}
-        self.ids = ['a1', 'a2', 'a3', 'zz']
+        self.keys = [a[0] for a in self.agents]
+        self.idof = {a[0]: a[1] for a in self.agents}
+        self.ids = ['a1', 'a2', 'a3'] + (['a4'] if foreign else []) + ['zz']
         self._ops = [['look']] + [['add', k] for k in self.keys] + [['remove', i] for i in self.ids] + [['complete']]
 
     def fresh(self):
         w = World()
-        w.model = Core.Model(seed=1)
+        w.model = new_model(seed=1)
         w.pos = ()
         if self.spec:
             cls, args, pos = self.spec[:3]
@@ -88,15 +92,18 @@ class Harness:
             w.pos = pos
         w.agents = {}
         w.comps = []
-        for key, aid, types in AGENTS + [('probe', 'probe', ('X',))]:
-            a = Core.Agent(aid, w.model)
+        w.m2 = new_model(seed=2)      # the model the foreign agent was built for: never touched by this one's environment
+        for key, aid, types in self.agents + [('probe', 'probe', ('X',))]:
+            owner = w.m2 if key in FOREIGN else w.model
+            a = Core.Agent(aid, owner)
             for T in types:
-                c = TYPES[T](a, w.model)
+                c = TYPES[T](a, owner)
                 a.add_component(c)
                 w.comps.append(c)
             w.agents[key] = a
         w.ref = []          # resident keys in joining order
         w.last = None
+        w.m2_before = public_snapshot(w.m2)
         return w
 
     def ops(self, w):
@@ -130,6 +137,19 @@ class Harness:
             if aid in res:
                 self._rejected(w, lambda: env.add_agent(w.agents[key], *w.pos), Core.DuplicateAgentError,
                                f'add of {key} while id {aid} is resident')
+            elif key in FOREIGN:
+                # an agent built for another model: the environment may take it (then it is resident like any other)
+                # or refuse it - but a refusal leaves no trace
+                before = self.snapshot(w)
+                try:
+                    env.add_agent(w.agents[key], *w.pos)
+                except Exception as e:      # noqa
+                    after = self.snapshot(w)
+                    if after != before:
+                        raise Violation(f'add of {key} (built for another model) failed with {type(e).__name__}({e}) '
+                                        f'and left a trace', expected='snapshot unchanged', observed=_diff(before, after))
+                    return
+                w.ref.append(key)
             else:
                 (env.addAgent if self.aliases and not self.spec else env.add_agent)(w.agents[key], *w.pos)
                 w.ref.append(key)
@@ -174,6 +194,9 @@ class Harness:
     def check(self, w):
         env = w.model.environment
         exp = [w.agents[k] for k in w.ref]
+        if public_snapshot(w.m2) != w.m2_before:
+            raise Violation('another model (the one agent a4f was built for) changed although nothing was done to it',
+                            expected='unchanged', observed=_diff(w.m2_before, public_snapshot(w.m2)))
         if len(env) != len(exp):
             raise Violation('len(env) differs from the number of live agents', expected=len(exp), observed=len(env))
         it = list(iter(env))
@@ -285,12 +308,22 @@ def _diff(a, b):
     return {'before': sa[max(0, i - 80):i + 80], 'after': sb[max(0, i - 80):i + 80]}
 
 
+# the cheap legs run once more under the runner's ambient configurations (python -O, other logger levels)
+AMBIENT_LEGS = True
+
+
 def run(ctx):
     kinds = QUICK if ctx.tier == 'quick' else list(WORLDS)
-    for kind, al in [(k, False) for k in kinds] + [('plain', True), ('grid_3x2', True)]:
-        h = Harness(kind, al)
-        r = hbfs.explore(ctx, h, kind + ('+deprecated_entry_points' if al else ''), max_depth=30, procs=ctx.procs)
-        ctx.leg(kind + ('+deprecated_entry_points' if al else ''), **r)
+    fk = ('plain', 'grid_3x2') if ctx.tier == 'quick' else tuple(kinds)
+    plan = [(k, False, False) for k in kinds] + [('plain', True, False), ('grid_3x2', True, False)] + \
+           [(k, False, True) for k in fk]
+    if ctx.small:
+        plan = [(k, False, False) for k in kinds]
+    for kind, al, fo in plan:
+        h = Harness(kind, al, fo)
+        name = kind + ('+deprecated_entry_points' if al else '') + ('+foreign_agent' if fo else '')
+        r = hbfs.explore(ctx, h, name, max_depth=30, procs=ctx.procs)
+        ctx.leg(name, **r)
         if not r.get('fixpoint'):
             ctx.cap(f'{kind}: fixpoint not reached')
         if ctx.violations:
@@ -298,4 +331,5 @@ def run(ctx):
 
 
 def replay(case):
-    hbfs.replay_case(Harness(case['config']['world'], case['config'].get('aliases', False)), case)
+    hbfs.replay_case(Harness(case['config']['world'], case['config'].get('aliases', False),
+                             case['config'].get('foreign', False)), case)
